@@ -383,7 +383,7 @@ impl TypedScenario for C03E2E {
     fn budget(&self, tier: Tier) -> usize {
         match tier {
             Tier::Quick => 3000,
-            Tier::Thorough => 200_000,
+            Tier::Thorough => 1_000_000,
         }
     }
     fn generate(&self, seed: u64, index: usize, _tier: Tier) -> Plan {
@@ -593,7 +593,7 @@ impl TypedScenario for C03Foreign {
     fn budget(&self, tier: Tier) -> usize {
         match tier {
             Tier::Quick => 1500,
-            Tier::Thorough => 100_000,
+            Tier::Thorough => 500_000,
         }
     }
     fn generate(&self, seed: u64, index: usize, tier: Tier) -> Self::Plan {
